@@ -240,3 +240,114 @@ Proof.
       * intros x [<-|Hx]; [exact Hle|]. unfold log_from in Hx. apply filter_In in Hx. destruct Hx as [_ Hx]. apply N.leb_le. exact Hx.
     + exists (e :: done). cbn. split; [f_equal; exact E|]. split; [intros x [<-|Hx]; auto|exact Ht].
 Qed.
+
+(* ---- the LRU cache ---- *)
+
+Lemma kget_removelast k m v : kget k (removelast m) = Some v -> kget k m = Some v.
+Proof.
+  induction m as [|[k' v'] r IH]; cbn; [discriminate|].
+  destruct r as [|x r']; [cbn; discriminate|].
+  cbn [kget]. destruct (N.eqb_spec k k'); auto.
+Qed.
+
+Lemma lru_add_get cap k n c k' v : kget k' (lru_add cap k n c) = Some v ->
+  (k' = k /\ v = n) \/ (k' <> k /\ kget k' c = Some v).
+Proof.
+  unfold lru_add. intros H.
+  assert (G : kget k' ((k, n) :: kdel k c) = Some v).
+  { destruct (ksize ((k, n) :: kdel k c) <=? cap); [exact H|apply kget_removelast; exact H]. }
+  cbn [kget] in G. destruct (N.eqb_spec k' k).
+  - left. inversion G; auto.
+  - right. split; auto. rewrite kget_kdel_other in G by congruence. exact G.
+Qed.
+
+Lemma lru_get_spec k c v c' : lru_get k c = Some (v, c') ->
+  kget k c = Some v /\ forall k', kget k' c' = kget k' c.
+Proof.
+  unfold lru_get. destruct (kget k c) as [v0|] eqn:E; [|discriminate]. intros H; inversion H; subst.
+  split; auto. intros k'. cbn [kget]. destruct (N.eqb_spec k' k); [subst; auto|].
+  apply kget_kdel_other. congruence.
+Qed.
+
+Lemma lru_get_none k c : lru_get k c = None -> kget k c = None.
+Proof. unfold lru_get. destruct (kget k c); [discriminate|auto]. Qed.
+
+Lemma ev_val_le_log_max k lg e : In e lg -> ev_val k e <= log_max k lg.
+Proof.
+  induction lg as [|x lg IH] using rev_ind; [intros []|].
+  rewrite log_max_app. intros H. apply in_app_or in H. destruct H as [H|[<-|[]]]; [specialize (IH H)|]; lia.
+Qed.
+
+Lemma kget_le_log_max k lg e v : In e lg -> kget k (snd e) = Some v -> v <= log_max k lg.
+Proof. intros Hin Hk. pose proof (ev_val_le_log_max k lg e Hin) as H. unfold ev_val in H. rewrite Hk in H. exact H. Qed.
+
+(* ---- maps keep their keys unique ---- *)
+
+Lemma In_kdel k k' m : In k' (map fst (kdel k m)) -> In k' (map fst m) /\ k' <> k.
+Proof.
+  induction m as [|[k0 v] r IH]; cbn; [tauto|].
+  destruct (N.eqb_spec k k0).
+  - subst. intros H. destruct (IH H). split; auto.
+  - cbn. intros [<-|H]; [split; auto; congruence|]. destruct (IH H). split; auto.
+Qed.
+
+Lemma NoDup_kdel k m : NoDup (map fst m) -> NoDup (map fst (kdel k m)).
+Proof.
+  induction m as [|[k0 v] r IH]; cbn; intros ND; [constructor|].
+  inversion ND as [|? ? Hn Hr]; subst. destruct (N.eqb_spec k k0); [auto|].
+  cbn. constructor; auto. intros Hin. apply In_kdel in Hin. tauto.
+Qed.
+
+Lemma NoDup_kput k v m : NoDup (map fst m) -> NoDup (map fst (kput k v m)).
+Proof.
+  intros ND. unfold kput. cbn. constructor; [|apply NoDup_kdel; exact ND].
+  intros Hin. apply In_kdel in Hin. tauto.
+Qed.
+
+Lemma NoDup_kmerge dst src : NoDup (map fst dst) -> NoDup (map fst (kmerge dst src)).
+Proof.
+  intros ND. unfold kmerge. induction src as [|[k v] r IH]; cbn [fold_right fst snd]; auto. apply NoDup_kput. exact IH.
+Qed.
+
+Lemma NoDup_rm_step m kv : NoDup (map fst m) -> NoDup (map fst (rm_step m kv)).
+Proof.
+  intros ND. unfold rm_step. destruct (kget (fst kv) m); auto. destruct (_ =? _); auto. apply NoDup_kdel. exact ND.
+Qed.
+
+Lemma NoDup_kremove m vals : NoDup (map fst m) -> NoDup (map fst (kremove_same m vals)).
+Proof.
+  revert m. induction vals as [|kv r IH]; intros m ND; [exact ND|].
+  rewrite kremove_same_cons. apply IH. apply NoDup_rm_step. exact ND.
+Qed.
+
+Lemma NoDup_In_kget k v m : NoDup (map fst m) -> In (k, v) m -> kget k m = Some v.
+Proof.
+  induction m as [|[k0 v0] r IH]; cbn; [tauto|]. intros ND [E|Hin].
+  - inversion E; subst. rewrite N.eqb_refl. reflexivity.
+  - inversion ND as [|? ? Hn Hr]; subst. destruct (N.eqb_spec k k0).
+    + subst. exfalso. apply Hn. apply (in_map fst) in Hin. exact Hin.
+    + apply IH; auto.
+Qed.
+
+(* ---- numbers recorded for a key grow along the log ---- *)
+Inductive log_mono : list event -> Prop :=
+| mono_nil : log_mono []
+| mono_snoc lg e : log_mono lg -> (forall k v, kget k (snd e) = Some v -> log_max k lg <= v) -> log_mono (lg ++ [e]).
+
+Lemma log_mono_prefix a b : log_mono (a ++ b) -> log_mono a.
+Proof.
+  induction b as [|x b IH] using rev_ind; intros H.
+  - rewrite app_nil_r in H. exact H.
+  - rewrite app_assoc in H. inversion H as [E|lg e Hl He E].
+    + destruct (a ++ b); discriminate.
+    + apply app_inj_tail in E. destruct E as [-> ->]. apply IH. exact Hl.
+Qed.
+
+Lemma log_mono_at done e rest : log_mono (done ++ e :: rest) ->
+  forall k v, kget k (snd e) = Some v -> log_max k done <= v.
+Proof.
+  intros H. replace (done ++ e :: rest) with ((done ++ [e]) ++ rest) in H by (rewrite <- app_assoc; reflexivity).
+  apply log_mono_prefix in H. inversion H as [E|lg e' Hl He E].
+  - destruct done; discriminate.
+  - apply app_inj_tail in E. destruct E as [-> ->]. exact He.
+Qed.
